@@ -17,8 +17,9 @@ META = dict(
     trusted=['k-table pickle files are written by the harness in the layout PickleKTable reads',
              'for non-degenerate tables the prepared k-coefficients (sigma_xsec after prepare), densities and '
              'chord lengths are observed and the Gallina contribute_ktau model recomputes the transmittance'],
-    modelled=['contribute_ktau; the correlated-k emission path is compared only against the cross-section path on '
-              'degenerate tables (and bounded by the cross-section result of the averaged coefficient)'],
+    modelled=['contribute_ktau; evaluate_emission_ktables (Model_C02.kintensity: the layered integral whose '
+              'transmittance is the weight-averaged exponential) on non-degenerate tables, and against the '
+              'cross-section path on degenerate tables'],
     assumptions=['weights >= 0 summing to one; coefficients >= 0',
                  'tolerance 1e-9 relative on spectra, 1e-9 absolute on transmittances'],
 )
@@ -124,7 +125,14 @@ def run(ctx):
         else:
             ctx.validated()
 
+    # emission with general (non-degenerate) k-distributions: the intensity is the layered integral whose transmittance
+    # is the weight-averaged exponential (Model_C02.kintensity; C20_degenerate_emission is its degenerate case)
+    import c02
+    c02.kcases(ctx, rng, n=(10, 80), tag='C20_kem')
 
 def replay(ctx, obj):
+    if obj['replay'].get('kind') == 'ktable':
+        import c02
+        return c02.kreplay(ctx, obj['replay'])
     ctx.notes.append('replay re-runs the whole deterministic check with the stored seed')
     run(ctx)
